@@ -1488,6 +1488,8 @@ fn gen_tc(r: &mut Rng, maxc: usize) -> String {
     if r.chance(1, 6) { let k = 1 + r.below(pd.len() as u64) as usize; pd.truncate(k); }       // an open tangle
     let (h, t) = tc_ht(r);
     let bp = if r.chance(1, 3) { let x = r.pick(&pd); r.pick(&x[..]).to_string() } else { "-".into() };
+    // the reduced theory needs t = 0 (KhComplex::new asserts it: X^2 = hX + t must stay in the span of X)
+    let t = if bp == "-" { t } else { 0 };
     let mut ops = vec![format!("I {} {} {} {} {}", h, t, r.range(-2, 2), r.range(-3, 3), bp)];
     let style = r.below(4);         // 0: greedy (deloop all, eliminate all), 1: single steps, 2: lazy (nothing until the end), 3: mixed
     let lazy_ok = pd.len() <= 4;
@@ -1521,6 +1523,7 @@ fn gen_tc_co(r: &mut Rng, maxc: usize) -> String {
     let k = r.below(pd.len() as u64 + 1) as usize;
     let (h, t) = tc_ht(r);
     let bp = if r.chance(1, 3) { let x = r.pick(&pd); Some(*r.pick(&x[..])) } else { None };
+    let t = if bp.is_none() { t } else { 0 };
     let bps = |b: Option<usize>| b.map(|e| e.to_string()).unwrap_or("-".into());
     let (b1, b2) = match r.below(4) { 0 => (bp, bp), 1 => (bp, None), 2 => (None, bp), _ => (bp, if r.chance(1, 8) { Some(999) } else { None }) };
     let mut ops = vec![format!("I {} {} {} {} {}", h, t, r.range(-1, 1), r.range(-1, 1), bps(b1))];
@@ -1546,7 +1549,8 @@ fn gen_tc_mf(r: &mut Rng) -> String {
     shuffle(&mut pd, r);
     pd.truncate(3);
     let (h, t) = tc_ht(r);
-    let mut ops = vec![format!("I {} {} 0 0 -", h, t)];
+    let bp = if r.chance(1, 4) { let x = r.pick(&pd); r.pick(&x[..]).to_string() } else { "-".into() };      // also with t != 0
+    let mut ops = vec![format!("I {} {} 0 0 {}", h, t, bp)];
     let n = pd.len();
     let rand_key = |r: &mut Rng, n: usize| {
         let s: String = (0..n).map(|_| if r.bool() { '1' } else { '0' }).collect();
@@ -1674,7 +1678,7 @@ fn main() {
             let mut r = Rng::new(seed);
             for c in fixed_cases() { let res = run_case(&c); o.case(&c, &res); }
             let (n, maxc) = if thorough { (80000, 14) } else { (8000, 9) };
-            let tcmax = if thorough { 6 } else { 5 };
+            let (ntc, tcmax) = if thorough { (5000, 6) } else { (600, 5) };
             for i in 0..n {
                 let c = match i % 12 {
                     8 => match (i / 12) % 4 { 0 | 1 => gen_sk_n(&mut r), 2 => gen_sk_k(&mut r, maxc.min(6)), _ => gen_sk_lc(&mut r) },
@@ -1686,9 +1690,15 @@ fn main() {
                     3 => gen_cn(&mut r, maxc),
                     4 | 5 => gen_wf(&mut r),
                     6 | 7 => gen_mf(&mut r),
-                    9 if (i / 12) % 2 == 1 => match (i / 24) % 8 { 0..=4 => gen_tc(&mut r, tcmax), 5 | 6 => gen_tc_co(&mut r, tcmax), _ => gen_tc_mf(&mut r) },
                     _ => gen_pc(&mut r),
                 };
+                let res = run_case(&c);
+                o.case(&c, &res);
+            }
+            // the tangle complex: a stream of its own (the cases above are those of the earlier layers, unchanged)
+            let mut r = Rng::new(seed ^ 0x7c01);
+            for i in 0..ntc {
+                let c = match i % 8 { 0..=4 => gen_tc(&mut r, tcmax), 5 | 6 => gen_tc_co(&mut r, tcmax), _ => gen_tc_mf(&mut r) };
                 let res = run_case(&c);
                 o.case(&c, &res);
             }
